@@ -416,7 +416,7 @@ class Parser:
         save = self.p
         try:
             e = self.e_add()
-            if self.at(",") or self.at(")") or self.at(";") or self.at("?"):
+            if self.at(",") or self.at(")") or self.at(";") or self.at("?") or self.at("="):
                 return e
         except Refuse:
             pass
@@ -559,6 +559,19 @@ class Parser:
                 rhs = self.e_add_or_cond()
             if rhs[0] == "setter":
                 raise Refuse("setter on rhs")
+            if self.at("=") and op == "=" and rhs[0] == "var":
+                # a = b = e;   is transliterated as   b = e; a = e;
+                chain = [lhs[1], rhs[1]]
+                self.eat("=")
+                r2 = self.e_add_or_cond()
+                while self.at("=") and r2[0] == "var":
+                    chain.append(r2[1])
+                    self.eat("=")
+                    r2 = self.e_add_or_cond()
+                if r2[0] in ("condexpr", "setter"):
+                    raise Refuse("unsupported chained assignment")
+                self.eat(";")
+                return seq([("assign", v, r2) for v in reversed(chain)])
             if self.at("?") and op == "=":
                 # v = c ? a : b;   is transliterated as   if (c) v = a; else v = b;
                 c = rhs[1] if rhs[0] == "condexpr" else ("nz", rhs)
